@@ -738,7 +738,11 @@ class Interp:
             args = [self.val(a, env) for a in e.get('args', [])]
             if name in ('is_empty', 'len') and not args and isinstance(recv, tuple) and len(recv) == 3 and recv[0] == 'range' and isinstance(recv[1], int) and isinstance(recv[2], int):
                 return (recv[2] < recv[1]) if name == 'is_empty' else max(0, recv[2] - recv[1] + 1)
-            if name == 'contains' and isinstance(recv, tuple) and recv[0] == 'range':
+            if name == 'contains' and len(args) == 1 and isinstance(recv, tuple) and not (recv and recv[0] in ('range', 'ctor', 'struct', 'closure', 'iter', 'opaque', 'rec')):
+                return args[0] in recv              # membership in a slice
+            if name == 'contains' and len(args) == 1 and isinstance(recv, VecObj):
+                return args[0] in recv.items
+            if name == 'contains' and isinstance(recv, tuple) and recv and recv[0] == 'range':
                 return recv[1] <= args[0] <= recv[2]
             if isinstance(recv, int) and not isinstance(recv, bool) and name in BYTE_PREDICATES and not args:
                 return BYTE_PREDICATES[name](recv)
